@@ -166,6 +166,26 @@ func (r *ref) sortedKeys() []key {
 	return ks
 }
 
+// hintDelegations returns the delegation names of a hint shape and whether one of them lies in
+// the producer region (/r): then the Interest has reached the region and is forwarded by name.
+func hintDelegations(shape string) (names []string, reached bool) {
+	if shape == "" {
+		return nil, false
+	}
+	for _, x := range strings.Split(shape, "+") {
+		switch x {
+		case "in":
+			names = append(names, hintIn)
+			reached = true
+		case "out":
+			names = append(names, hintOut)
+		case "out2":
+			names = append(names, hintOut2)
+		}
+	}
+	return
+}
+
 func p2p(f uint64) bool      { return f != fwsim.A6 }
 func nonLocal(f uint64) bool { return f != fwsim.L1 && f != fwsim.L5 }
 func ccf(f uint64) bool      { return f == fwsim.L1 || f == fwsim.L5 }
@@ -223,8 +243,9 @@ func (r *ref) get(k key) *ent {
 func (r *ref) onInterest(in *inst, o *iOp, nonce uint32, hasNonce, dead bool, before table.VerifPitCsDump, sends []fwsim.Send, now time.Time) (v []report.Violation) {
 	stats["interest arrivals"]++
 	k := key{name: o.name}
-	if o.hint == "out" {
-		k.hint = hintOut
+	hintNames, reached := hintDelegations(o.hint)
+	if len(hintNames) > 0 && !reached {
+		k.hint = hintNames[0] // the PIT aggregates by the delegation used (adopted: the first one)
 	}
 	var is, ds []fwsim.Send
 	for _, s := range sends {
@@ -343,103 +364,125 @@ func (r *ref) onInterest(in *inst, o *iOp, nonce uint32, hasNonce, dead bool, be
 		}
 	} else {
 		// ---- FIB + strategy ----
-		lookup, by := o.name, "name"
-		if o.hint == "out" {
-			lookup, by = hintOut, "forwarding hint"
+		// The FIB is consulted for the Interest name, or - while no delegation of the forwarding
+		// hint lies in the producer region - for the forwarding hint. With several delegations
+		// outside the region the text does not say which one: each is a legal choice.
+		lookups, by := []string{o.name}, "name"
+		if len(hintNames) > 0 && !reached {
+			lookups, by = hintNames, "forwarding hint"
 		}
-		hops, _ := r.lpmHops(lookup)
-		for _, s := range is {
-			if _, ok := hops[s.Face]; !ok {
-				v = append(v, viol("C02.nh", "Interest sent to a face that is not a next hop of the longest-prefix FIB entry (lookup by "+by+")", ctx))
-			}
-		}
-		// usable?
-		const (
-			unusable = iota
-			may
-			must
-		)
-		class := map[uint64]int{}
-		minMust, nMust := uint64(0), 0
-		for h, c := range hops {
-			cl := must
-			switch {
-			case h == o.face && p2p(o.face):
-				cl = unusable
-			case h == o.face:
-				cl = may // ad-hoc arrival face
-			case (e != nil && e.recs[h] != nil) || implRec(before, k, h) != nil:
-				cl = may // the next hop is itself a downstream of this Interest
-			case o.hl == 1 && nonLocal(h):
-				cl = may // hop limit reached 0
-			}
-			class[h] = cl
-			if cl == must {
-				if nMust == 0 || c < minMust {
-					minMust = c
-				}
-				nMust++
-			}
-		}
-		// suppression
-		mustSuppress, pending := false, false
-		if e != nil {
-			for _, rc := range e.recs {
-				if now.Before(rc.expiry) {
-					pending = true
+		eval := func(lookup string, count bool) (v []report.Violation) {
+			note := func(s string) {
+				if count {
+					stats[s]++
 				}
 			}
-			if pending && e.last != nil && e.last.nonce != nonce && now.Before(e.last.ts.Add(suppression)) {
-				mustSuppress = true
-			}
-		}
-		strat := r.lpmStrat(o.name)
-		sname := strings.TrimSuffix(strings.TrimPrefix(strat, "/localhost/nfd/strategy/"), "/v=1")
-		switch {
-		case mustSuppress:
-			stats["must not forward: different-nonce retransmission inside the suppression interval"]++
-			if len(is) > 0 {
-				prev := "by the strategy"
-				if e.lastViaNH {
-					prev = "on the NextHopFaceId path"
+			hops, _ := r.lpmHops(lookup)
+			for _, s := range is {
+				if _, ok := hops[s.Face]; !ok {
+					v = append(v, viol("C02.nh", "Interest sent to a face that is not a next hop of the longest-prefix FIB entry (lookup by "+by+")", ctx))
 				}
-				v = append(v, viol("C02.suppress", "different-nonce retransmission inside the suppression interval was forwarded (previous transmission "+prev+")",
-					fmt.Sprintf("previous transmission %s ago with another nonce; %s", now.Sub(e.last.ts), ctx)))
 			}
-		case len(is) > 0:
-			stats["forwarded by "+sname]++
-			if strat == fwsim.BestRoute {
-				if len(seen) > 1 {
-					v = append(v, viol("C02.best", "best-route used more than one next hop", ctx))
+			// usable?
+			const (
+				unusable = iota
+				may
+				must
+			)
+			class := map[uint64]int{}
+			minMust, nMust := uint64(0), 0
+			for h, c := range hops {
+				cl := must
+				switch {
+				case h == o.face && p2p(o.face):
+					cl = unusable
+				case h == o.face:
+					cl = may // ad-hoc arrival face
+				case (e != nil && e.recs[h] != nil) || implRec(before, k, h) != nil:
+					cl = may // the next hop is itself a downstream of this Interest
+				case o.hl == 1 && nonLocal(h):
+					cl = may // hop limit reached 0
 				}
-				for f := range seen {
-					if c, ok := hops[f]; ok && nMust > 0 && c > minMust {
-						v = append(v, viol("C02.best", "best-route did not use the lowest-cost usable next hop", fmt.Sprintf("used %s (cost %d), a usable next hop of cost %d exists; %s", faceLabel[f], c, minMust, ctx)))
+				class[h] = cl
+				if cl == must {
+					if nMust == 0 || c < minMust {
+						minMust = c
+					}
+					nMust++
+				}
+			}
+			// suppression
+			mustSuppress, pending := false, false
+			if e != nil {
+				for _, rc := range e.recs {
+					if now.Before(rc.expiry) {
+						pending = true
 					}
 				}
-			} else {
-				for h, cl := range class {
-					if cl == must && seen[h] == 0 {
-						v = append(v, viol("C02.best", "multicast did not use every usable next hop", fmt.Sprintf("%s not used; %s", faceLabel[h], ctx)))
+				if pending && e.last != nil && e.last.nonce != nonce && now.Before(e.last.ts.Add(suppression)) {
+					mustSuppress = true
+				}
+			}
+			strat := r.lpmStrat(o.name)
+			sname := strings.TrimSuffix(strings.TrimPrefix(strat, "/localhost/nfd/strategy/"), "/v=1")
+			switch {
+			case mustSuppress:
+				note("must not forward: different-nonce retransmission inside the suppression interval")
+				if len(is) > 0 {
+					prev := "by the strategy"
+					if e.lastViaNH {
+						prev = "on the NextHopFaceId path"
+					}
+					v = append(v, viol("C02.suppress", "different-nonce retransmission inside the suppression interval was forwarded (previous transmission "+prev+")",
+						fmt.Sprintf("previous transmission %s ago with another nonce; %s", now.Sub(e.last.ts), ctx)))
+				}
+			case len(is) > 0:
+				note("forwarded by " + sname)
+				if strat == fwsim.BestRoute {
+					if len(seen) > 1 {
+						v = append(v, viol("C02.best", "best-route used more than one next hop", ctx))
+					}
+					for f := range seen {
+						if c, ok := hops[f]; ok && nMust > 0 && c > minMust {
+							v = append(v, viol("C02.best", "best-route did not use the lowest-cost usable next hop", fmt.Sprintf("used %s (cost %d), a usable next hop of cost %d exists; %s", faceLabel[f], c, minMust, ctx)))
+						}
+					}
+				} else {
+					for h, cl := range class {
+						if cl == must && seen[h] == 0 {
+							v = append(v, viol("C02.best", "multicast did not use every usable next hop", fmt.Sprintf("%s not used; %s", faceLabel[h], ctx)))
+						}
 					}
 				}
 			}
-		}
-		if first && cacheMiss && !answered && !mayDrop && nMust > 0 {
-			stats["must forward: first Interest with a usable next hop ("+sname+", lookup by "+by+")"]++
-			if len(is) == 0 {
-				v = append(v, viol("C02.first", "first Interest with a usable next hop was not forwarded ("+sname+", lookup by "+by+")", ctx))
+			if first && cacheMiss && !answered && !mayDrop && nMust > 0 {
+				note("must forward: first Interest with a usable next hop (" + sname + ", lookup by " + by + ")")
+				if len(is) == 0 {
+					v = append(v, viol("C02.first", "first Interest with a usable next hop was not forwarded ("+sname+", lookup by "+by+")", ctx))
+				}
+			} else if !mustSuppress {
+				switch {
+				case !first:
+					note("may forward: retransmission outside the suppression interval")
+				case nMust == 0:
+					note("may forward: no next hop that must count as usable")
+				default:
+					note("may forward: cache / repeated nonce")
+				}
 			}
-		} else if !mustSuppress {
-			switch {
-			case !first:
-				stats["may forward: retransmission outside the suppression interval"]++
-			case nMust == 0:
-				stats["may forward: no next hop that must count as usable"]++
-			default:
-				stats["may forward: cache / repeated nonce"]++
+			return
+		}
+		var best []report.Violation
+		for i, lk := range lookups {
+			vv := eval(lk, i == 0)
+			if i == 0 || len(vv) < len(best) {
+				best = vv
+			}
+			if len(vv) == 0 {
+				break
 			}
 		}
+		v = append(v, best...)
 		// ---- C02.token (first half) ----
 		var tv *uint32
 		for _, s := range is {
